@@ -4,9 +4,25 @@
 (* the real crate is judged by IntervalSession!Failed, i.e. by the         *)
 (* properties stated over the denoted sets.  One state per event.          *)
 (***************************************************************************)
-EXTENDS IvFamily, Json
+EXTENDS IvFamily, Float, Json
 
 Rec == ndJsonDeserialize(IOEnv.TRACE)
+
+\* C19, exact re-evaluation of the element-level predicate for the absolute mode:
+\* |x - y| <= epsilon over the exact values of the recorded floats.
+AbsNear(x, y, eps) == DyNearAbs(FDy(x), FDy(y), FDy(eps))
+ApproxExact(e) ==
+    IF e.op = "iv.approx" /\ e.mode = "abs" /\ e.a.k = e.b.k
+    THEN {c \in {"C19.abs_exact"} :
+            \/ (HasLo(e.a) /\ e.near_lo # AbsNear(e.alo, e.blo, e.epsv))
+            \/ (HasHi(e.a) /\ e.near_hi # AbsNear(e.ahi, e.bhi, e.epsv))}
+    ELSE {}
+ApproxClauses(e) ==
+    (IF e.op = "iv.approx" /\ e.mode = "abs" /\ e.a.k = e.b.k THEN {"C19.abs_exact"} ELSE {})
+    \cup (IF e.op = "iv.approx" /\ e.a.k = "two" /\ e.b.k = "two"
+          THEN (IF e.near_lo /\ ~e.near_hi THEN {"C19.only_low_near"} ELSE {})
+               \cup (IF ~e.near_lo /\ e.near_hi THEN {"C19.only_high_near"} ELSE {})
+          ELSE {})
 
 VARIABLES l, cov, nbad
 vars == <<l, cov, nbad>>
@@ -18,8 +34,8 @@ Bump(c, cs) == [x \in DOMAIN c \cup cs |->
 
 Next == /\ l <= Len(Rec)
         /\ LET e  == Rec[l]
-               f  == Failed(e)
-               cs == Clauses(e) IN
+               f  == Failed(e) \cup ApproxExact(e)
+               cs == Clauses(e) \cup ApproxClauses(e) IN
              /\ (f # {}) => PrintT("BAD " \o ToJson([id |-> e.id, failed |-> f]))
              /\ nbad' = nbad + (IF f = {} THEN 0 ELSE 1)
              /\ cov' = Bump(cov, cs)
